@@ -40,6 +40,9 @@ M = [
  ("c11_wc_no_timer", "C11", "conn.go", "			case <-timer.C:\n				return errWriteTimeout", "			case <-timer.C:\n				<-c.mu"),
  ("c11_timeout_poisons", "C11", "conn.go", "			case <-timer.C:\n				return errWriteTimeout", "			case <-timer.C:\n				return c.writeFatal(errWriteTimeout)"),
  ("c11_unlock_between_bufs", "C11 C09", "conn.go", "func (c *Conn) writeBufs(bufs ...[]byte) error {\n	b := net.Buffers(bufs)\n	_, err := b.WriteTo(c.conn)\n	return err\n}", "func (c *Conn) writeBufs(bufs ...[]byte) error {\n	_, err := c.conn.Write(bufs[0])\n	if err != nil {\n		return err\n	}\n	c.mu <- struct{}{}\n	<-c.mu\n	_, err = c.conn.Write(bufs[1])\n	return err\n}"),
+ ("c09_flag_async", "C09 C11", "conn.go", "	if messageType == CloseMessage {\n		_ = c.writeFatal(ErrCloseSent)\n	}\n	return err\n}", "	if messageType == CloseMessage {\n		go c.writeFatal(ErrCloseSent)\n	}\n	return err\n}"),
+ ("c11_race_writeerr", "C11", "conn.go", "	c.writeErrMu.Lock()\n	err := c.writeErr\n	c.writeErrMu.Unlock()\n	if err != nil {\n		return err\n	}\n\n	mw.c = c", "	err := c.writeErr\n	if err != nil {\n		return err\n	}\n\n	mw.c = c"),
+ ("c11_race_prepared", "C11", "prepared.go", "	pm.mu.Lock()\n	frame, ok := pm.frames[key]\n	if !ok {", "	if f, ok := pm.frames[key]; ok && f.data != nil {\n		return pm.messageType, f.data, nil\n	}\n	pm.mu.Lock()\n	frame, ok := pm.frames[key]\n	if !ok {"),
  ("c12_version", "C12", "server.go", "	if !tokenListContainsValue(r.Header, \"Sec-Websocket-Version\", \"13\") {", "	if r.Header.Get(\"Sec-Websocket-Version\") == \"\" {"),
  ("c12_key_len", "C12", "util.go", "	return err == nil && len(decoded) == 16", "	return err == nil && len(decoded) >= 16"),
  ("c12_scrub_cr", "C12", "server.go", "				if b <= 31 {\n					// prevent response splitting.\n					b = ' '\n				}\n				p = append(p, b)\n			}\n			p = append(p, \"\\r\\n\"...)\n		}", "				if b <= 31 && b != '\\r' {\n					// prevent response splitting.\n					b = ' '\n				}\n				p = append(p, b)\n			}\n			p = append(p, \"\\r\\n\"...)\n		}"),
